@@ -35,7 +35,9 @@ INLINE = ["em", "i", "strong", "b", "code", "a", "img", "br", "span", "u"]
 IGNORABLE = ["script", "style", "title"]
 STYLES = ["font-weight: bold", "font-style:italic", "font-weight:400;font-style: italic", "color: red", "font-weight", ""]
 WORDS = ["foo", "bar", "a", "x y", " lead", "trail ", "two  spaces", "new\nline", "&amp;", "&lt;b&gt;", "é😀", "tab\there",
-         "10\u00a0km", "\u00a0indented", "em\u2003space", "&nbsp;x"]
+         "10\u00a0km", "\u00a0indented", "em\u2003space", "&nbsp;x",
+         # control characters the HTML parser lets through: form feed (HTML white space), vertical tab, a C0 control
+         "form&#12;feed", "v&#11;tab", "ctl&#1;x", "raw\x0cff"]
 
 
 def gen_html(rng, depth=0):
